@@ -30,6 +30,7 @@ type OpB struct {
 	Level     string `json:",omitempty"` // Listen: "drv" (In.Listen) or "midi" (midi.ListenTo)
 	N         int    `json:",omitempty"` // Inject: number of records
 	Again     bool   `json:",omitempty"` // call the operation twice (idempotence of Open/Close/stop)
+	SysEx     bool   `json:",omitempty"` // Listen: with the sysex option on (then sysex records are injected too)
 }
 
 type CaseB struct {
@@ -148,6 +149,7 @@ func runB(c CaseB) (res ev.Result) {
 		listeners                      []*listenerB
 		active                         *listenerB
 		stopFn                         func()
+		activeSysEx                    bool
 		nextID                         = 1
 		mustLines                      []string // lines that must be in the out log, in per-sender order
 		maybeLines                     = map[string]bool{}
@@ -450,9 +452,13 @@ func runB(c CaseB) (res ev.Result) {
 			var err error
 			if s := call(where, func() {
 				if op.Level == "midi" {
-					stop, err = midi.ListenTo(in, func(m midi.Message, ts int32) { l.recv(m, ts) })
+					var opts []midi.Option
+					if op.SysEx {
+						opts = append(opts, midi.UseSysEx())
+					}
+					stop, err = midi.ListenTo(in, func(m midi.Message, ts int32) { l.recv(m, ts) }, opts...)
 				} else {
-					stop, err = in.Listen(func(b []byte, ts int32) { l.recv(b, ts) }, drivers.ListenConfig{})
+					stop, err = in.Listen(func(b []byte, ts int32) { l.recv(b, ts) }, drivers.ListenConfig{SysEx: op.SysEx})
 				}
 			}); s != "" {
 				return fail("%s", s)
@@ -475,6 +481,7 @@ func runB(c CaseB) (res ev.Result) {
 			}
 			listeners = append(listeners, l)
 			active, stopFn = l, stop
+			activeSysEx = op.SysEx
 		case "Stop":
 			if active == nil {
 				continue
@@ -500,6 +507,11 @@ func runB(c CaseB) (res ev.Result) {
 				m := liveMsg(nextID)
 				if nextID%3 == 0 {
 					m = twoByte(nextID)
+				}
+				if active != nil && activeSysEx && nextID%4 == 1 {
+					// the listener asked for sysex: every listening gets what its own options ask
+					// for, whatever an earlier listening on this port had asked for
+					m = []byte{0xF0, 0x7D, byte(nextID >> 7 & 0x7F), byte(nextID & 0x7F), 0xF7}
 				}
 				ts := int32(nextID)
 				nextID++
@@ -669,6 +681,7 @@ func genB(t *rapid.T) CaseB {
 			op.Again = rapid.IntRange(0, 3).Draw(t, "twice") == 0
 		case "Listen":
 			op.Level = rapid.SampledFrom([]string{"drv", "midi"}).Draw(t, "level")
+			op.SysEx = rapid.Bool().Draw(t, "sysexOption")
 			listening = true
 		case "ListenClosed":
 			op.Kind, op.Level = "Listen", "drv"
@@ -688,7 +701,7 @@ func genB(t *rapid.T) CaseB {
 }
 
 var partB = ev.NewCheck("C17", "midicatdrv-histories",
-	"rapid (run in the race-detector build): histories of 4..25 operations on the process-backed driver against the stand-in helper binary: out.Open/Close (also twice), bursts of 1..4 concurrent sender goroutines with 1..12 messages each, out.Close while senders are running, in.Open/Close (also twice), In.Listen or midi.ListenTo, stop (also twice, also while records are flowing), Driver.Close racing with the Open of another port (followed by a quiet Driver.Close after which every port must be closed), injection of 1..30 records (3-byte and 2-byte messages, unique time stamps) into the helper; the harness is the cable (it reads what the out helper received and writes what the in helper emits); oracle: every line sent with a nil result on the open port reaches the helper exactly once and per sender in order, Send on a closed port gives ErrPortClosed and nothing arrives, records injected while a listener is active (and drained) reach exactly that listener once and in order (in-flight records from a listener-less gap may precede them, at most once), a stopped listener is never called again, Listen works again after stop, Listen on a closed port does not block or panic, Open/Close/stop are idempotent, every call returns within 20 s, no panic, no data race report; non-trivial = >= 2 concurrent senders and a stop while records are flowing; distinct by case hash",
+	"rapid plus twelve fixed re-listening histories (listen - inject - stop repeated two to four times in one open session with the sysex option changing) (run in the race-detector build): histories of 4..25 operations on the process-backed driver against the stand-in helper binary: out.Open/Close (also twice), bursts of 1..4 concurrent sender goroutines with 1..12 messages each, out.Close while senders are running, in.Open/Close (also twice), In.Listen or midi.ListenTo with the sysex option drawn per listening (sysex records are injected for a listener that asked for them), stop (also twice, also while records are flowing), Driver.Close racing with the Open of another port (followed by a quiet Driver.Close after which every port must be closed), injection of 1..30 records (3-byte and 2-byte messages, unique time stamps) into the helper; the harness is the cable (it reads what the out helper received and writes what the in helper emits); oracle: every line sent with a nil result on the open port reaches the helper exactly once and per sender in order, Send on a closed port gives ErrPortClosed and nothing arrives, records injected while a listener is active (and drained) reach exactly that listener once and in order (in-flight records from a listener-less gap may precede them, at most once), a stopped listener is never called again, Listen works again after stop, Listen on a closed port does not block or panic, Open/Close/stop are idempotent, every call returns within 20 s, no panic, no data race report; non-trivial = >= 2 concurrent senders and a stop while records are flowing; distinct by case hash",
 	genB, runB)
 
 // TestRaceMidicatHistories runs in the race build only (bin/verif starts that binary with VERIF_RACE=1).
@@ -706,6 +719,31 @@ func TestRaceMidicatHistories(t *testing.T) {
 	}
 }
 
+// TestRaceRelisten: fixed histories in which one in-port is listened to several times in one open
+// session with changing options (every listening must get what its own options ask for).
+func TestRaceRelisten(t *testing.T) {
+	if !raceMode() {
+		t.Skip("part B runs in the race build")
+	}
+	if ev.Shard()%ev.Shards() != 0 {
+		return
+	}
+	for _, lv := range [][2]string{{"drv", "drv"}, {"midi", "midi"}, {"drv", "midi"}, {"midi", "drv"}} {
+		for _, pattern := range [][]bool{{false, true}, {true, false, true}, {false, false, true, true}} {
+			c := CaseB{InPort: 1, OutPort: 0, Ops: []OpB{{Kind: "OpenIn"}}}
+			for i, sx := range pattern {
+				c.Ops = append(c.Ops, OpB{Kind: "Listen", Level: lv[i%2], SysEx: sx}, OpB{Kind: "Inject", N: 9}, OpB{Kind: "Stop"})
+			}
+			c.Ops = append(c.Ops, OpB{Kind: "CloseIn"})
+			logHistory("midicatdrv-histories", c)
+			partB.One(t, c)
+			if t.Failed() {
+				return
+			}
+		}
+	}
+}
+
 // logHistory prints the case before it runs, so that a crash or a race report of the whole
 // process can be attributed to it by the driver.
 func logHistory(check string, c interface{}) {
@@ -718,6 +756,8 @@ func logHistory(check string, c interface{}) {
 type StartCase struct {
 	Port     string // in0 in1 out0 out1
 	AfterUse bool   // the port was opened and closed successfully before
+	// Senders > 0 (out ports): that many goroutines keep calling Send while Open fails (repeatedly)
+	Senders int `json:",omitempty"`
 }
 
 func runStart(c StartCase) (res ev.Result) {
@@ -759,8 +799,58 @@ func runStart(c StartCase) (res ev.Result) {
 	defer os.RemoveAll(empty)
 	os.Setenv("PATH", empty)
 	var oerr error
-	s := ev.TryTimeout(10*time.Second, func() { oerr = port.Open() })
+	// senders that hammer the (closed) out-port while its Open fails: every Send must report the
+	// port-closed error, nothing may panic, block or race
+	stopSenders := make(chan struct{})
+	var sendWG sync.WaitGroup
+	sendProblems := make([]string, c.Senders)
+	if out, ok := port.(drivers.Out); ok {
+		for g := 0; g < c.Senders; g++ {
+			sendWG.Add(1)
+			go func(g int) {
+				defer sendWG.Done()
+				defer func() {
+					if r := recover(); r != nil {
+						sendProblems[g] = fmt.Sprintf("Send panicked while Open was failing: %v", r)
+					}
+				}()
+				for i := 0; ; i++ {
+					select {
+					case <-stopSenders:
+						return
+					default:
+					}
+					if err := out.Send([]byte{0x90, byte(g), byte(i & 0x7F)}); err != drivers.ErrPortClosed {
+						sendProblems[g] = fmt.Sprintf("Send on a port whose Open is failing returned %v, want the port-closed error", err)
+						return
+					}
+				}
+			}(g)
+		}
+	}
+	s := ev.TryTimeout(10*time.Second, func() {
+		oerr = port.Open()
+		for i := 0; i < 30 && c.Senders > 0 && oerr != nil; i++ {
+			oerr = port.Open() // widen the window for the senders
+		}
+	})
+	close(stopSenders)
+	sendersDone := make(chan struct{})
+	go func() { sendWG.Wait(); close(sendersDone) }()
+	select {
+	case <-sendersDone:
+	case <-time.After(10 * time.Second):
+		os.Setenv("PATH", oldPath)
+		res.Violation = "a Send call that ran while Open was failing never returned"
+		return
+	}
 	os.Setenv("PATH", oldPath)
+	for _, p := range sendProblems {
+		if p != "" {
+			res.Violation = p
+			return
+		}
+	}
 	if s != "" {
 		res.Violation = fmt.Sprintf("%s.Open() while the helper binary cannot be started: %s", c.Port, s)
 		return
@@ -789,7 +879,7 @@ func runStart(c StartCase) (res ev.Result) {
 }
 
 var startFail = ev.NewCheck("C17", "midicatdrv-start-failure",
-	"enumeration: in and out ports 0/1 of the process-backed driver, fresh or after a successful open/close cycle, with PATH emptied so that the helper binary cannot be started; oracle: Open returns an error within a 10 s watchdog (no call blocks forever), IsOpen is false, and the port opens and closes normally once the helper is available again; all cases non-trivial",
+	"enumeration: in and out ports 0/1 of the process-backed driver, fresh or after a successful open/close cycle, with PATH emptied so that the helper binary cannot be started, for out ports also while three goroutines keep calling Send on the port (each Send must report the port-closed error); oracle: Open returns an error within a 10 s watchdog (no call blocks forever), IsOpen is false, and the port opens and closes normally once the helper is available again; all cases non-trivial",
 	nil, runStart)
 
 func TestRaceStartFailure(t *testing.T) {
@@ -799,11 +889,16 @@ func TestRaceStartFailure(t *testing.T) {
 	startFail.R.Exhaustive = true
 	for _, p := range []string{"out0", "out1", "in0", "in1"} {
 		for _, after := range []bool{false, true} {
-			c := StartCase{p, after}
-			logHistory("midicatdrv-start-failure", c)
-			startFail.One(t, c)
-			if t.Failed() {
-				return
+			for _, senders := range []int{0, 3} {
+				if senders > 0 && p[0] != 'o' {
+					continue
+				}
+				c := StartCase{p, after, senders}
+				logHistory("midicatdrv-start-failure", c)
+				startFail.One(t, c)
+				if t.Failed() {
+					return
+				}
 			}
 		}
 	}
